@@ -238,6 +238,89 @@ var classTable = []classDef{
 	{"ext.pex.garbage", func(e env) []byte { return ext(rainExtPEX, []byte("d5:addedi3ee")) }},
 }
 
+// ---- generated ut_pex families (the same names are constructed in spec/PeerInput.tla: PexLenK, PexRepK)
+
+var pexFields = []string{"added", "addedf", "dropped", "added6", "dropped6"}
+
+const pexMaxLen = 100
+
+// pexList returns n bytes of a compact IPv4 peer list: whole 6-byte entries (addresses 127.0.8.x:1, nobody listens
+// there: a dial is refused at once), followed by the first n%6 bytes of one more entry.
+func pexList(n int, salt byte) []byte {
+	out := make([]byte, 0, n+6)
+	for i := 0; len(out) < n; i++ {
+		out = append(out, 127, 0, 8, 1+byte(i%5)+salt, 0, 1)
+	}
+	return out[:n:n]
+}
+
+// pexLenMsg: the string of the named field is n bytes long.
+func pexLenMsg(field string, n int) []byte {
+	d := vh.Dict{"added": []byte{}, "dropped": []byte{}}
+	switch field {
+	case "added":
+		d["added"] = pexList(n, 0)
+	case "dropped":
+		d["dropped"] = pexList(n, 10)
+	case "addedf":
+		d["added"] = pexList(12, 20)
+		d["added.f"] = junk(n, 0x10)
+	case "added6":
+		d["added6"] = junk(n, 0x20)
+	case "dropped6":
+		d["dropped6"] = junk(n, 0x30)
+	}
+	return ext(rainExtPEX, vh.Enc(d))
+}
+
+// pexRepMsg: added / dropped name the addresses a = 127.0.7.1:1, x = 127.0.7.2:1 in the given order, repeats included.
+func pexRepMsg(added, dropped string) []byte {
+	list := func(s string) []byte {
+		out := []byte{}
+		for _, ch := range s {
+			k := byte(1)
+			if ch == 'x' {
+				k = 2
+			}
+			out = append(out, 127, 0, 7, k, 0, 1)
+		}
+		return out
+	}
+	return ext(rainExtPEX, vh.Enc(vh.Dict{"added": list(added), "dropped": list(dropped)}))
+}
+
+func init() {
+	for _, f := range pexFields {
+		for n := 0; n <= pexMaxLen; n++ {
+			f, n := f, n
+			classTable = append(classTable, classDef{fmt.Sprintf("ext.pex.len.%s.%d", f, n), func(e env) []byte { return pexLenMsg(f, n) }})
+		}
+	}
+	l1 := []string{"a", "x"}
+	var seqs []string
+	cur := []string{""}
+	for k := 1; k <= 4; k++ {
+		var nxt []string
+		for _, s := range cur {
+			for _, t := range l1 {
+				nxt = append(nxt, s+t)
+			}
+		}
+		seqs = append(seqs, nxt...)
+		cur = nxt
+	}
+	for _, a := range seqs {
+		for _, d := range []string{"", "a", "xa"} {
+			a, d := a, d
+			classTable = append(classTable, classDef{"ext.pex.rep." + a + "." + d, func(e env) []byte { return pexRepMsg(a, d) }})
+		}
+	}
+	classIndex = map[string]classDef{}
+	for _, c := range classTable {
+		classIndex[c.name] = c
+	}
+}
+
 var classIndex = func() map[string]classDef {
 	m := map[string]classDef{}
 	for _, c := range classTable {
